@@ -94,8 +94,19 @@ class HeapMixin:
         self.add_ref_facts(st, v)
         return v
 
+    def container_tag(self, v) -> T:
+        """type tag of a container object: category + element sort (typed heap: a list is never a deque/dict)"""
+        if isinstance(v, VDict):
+            return self.class_id(f"$dict:{elem_sort(v.k)}:{'/'.join(so for _, so in layout(v.v))}")
+        cat = {VList: "list", VDeque: "deque", VSet: "set"}[type(v)]
+        return self.class_id(f"${cat}:{elem_sort(v.elem)}")
+
     def add_ref_facts(self, st: State, v: Value):
         """Heap closure: references read from the heap denote allocated objects."""
+        if isinstance(v, (VList, VDict, VDeque, VSet)):
+            st.pc.append(Eq(self.type_of(st, v.t), self.container_tag(v)))
+        elif isinstance(v, VOpt) and isinstance(v.inner, (VList, VDict, VDeque, VSet)):
+            st.pc.append(Or(v.isnone, Eq(self.type_of(st, v.inner.t), self.container_tag(v.inner))))
         if isinstance(v, (VRef, VList, VDict, VDeque, VSet)):
             st.pc.append(And(Lt(I(0), v.t), Lt(v.t, st.alloc)))
             if isinstance(v, VRef) and not self.reg.models.get(v.cls, None) is None and self.reg.models[v.cls].builtin:
@@ -181,15 +192,17 @@ class HeapMixin:
 
     # ---- containers ---------------------------------------------------------------------------
     def _seq_key(self, elem: Kind, what="list"):
+        if not isinstance(what, str):
+            what = "deque" if isinstance(what, VDeque) else "list"
         so = elem_sort(elem)
         return f"${what}${so}", f"(Seq {so})"
 
     def seq_items(self, st: State, c) -> T:
-        key, sort = self._seq_key(c.elem)
+        key, sort = self._seq_key(c.elem, c)
         return select(self.heap_array(st, key, INT, sort), c.t)
 
     def set_seq_items(self, st: State, c, items: T) -> State:
-        key, sort = self._seq_key(c.elem)
+        key, sort = self._seq_key(c.elem, c)
         st = st.copy()
         a = self.heap_array(st, key, INT, sort)
         st.heap[key] = store(a, c.t, items)
@@ -198,11 +211,16 @@ class HeapMixin:
     def new_list(self, st: State, elem: Kind, items: T = None):
         st, r = self.alloc_ref(st)
         v = VList(r, elem)
+        self._tag(st, v)
         key, sort = self._seq_key(elem)
         if items is None:
             items = seq_empty(sort)
         st = self.set_seq_items(st, v, items)
         return st, v
+
+    def _tag(self, st: State, v):
+        a = self.heap_array(st, "$type", INT, INT)
+        st.heap["$type"] = store(a, v.t, self.container_tag(v))
 
     def deque_maxlen(self, st: State, d: VDeque) -> T:
         return select(self.heap_array(st, "$deque$maxlen", INT, INT), d.t)
@@ -210,7 +228,8 @@ class HeapMixin:
     def new_deque(self, st: State, elem: Kind, maxlen: T):
         st, r = self.alloc_ref(st)
         v = VDeque(r, elem)
-        key, sort = self._seq_key(elem)
+        self._tag(st, v)
+        key, sort = self._seq_key(elem, "deque")
         st = self.set_seq_items(st, v, seq_empty(sort))
         a = self.heap_array(st, "$deque$maxlen", INT, INT)
         st.heap["$deque$maxlen"] = store(a, r, maxlen)
@@ -219,7 +238,7 @@ class HeapMixin:
     # dicts: domain array + one value array per component of the value kind
     def _dict_keys(self, d: VDict):
         ks = elem_sort(d.k)
-        dom = f"$dict$dom${ks}"
+        dom = f"$dict$dom${ks}${repr(d.v)}"
         vals = [(f"$dict$val${ks}${repr(d.v)}{suf}", so) for suf, so in layout(d.v)]
         return ks, dom, vals
 
@@ -261,6 +280,7 @@ class HeapMixin:
     def new_dict(self, st: State, k: Kind, v: Kind):
         st, r = self.alloc_ref(st)
         d = VDict(r, k, v)
+        self._tag(st, d)
         ks, dom, vals = self._dict_keys(d)
         da = self.heap_array(st, dom, INT, arr(ks, BOOL))
         empty = T(f"((as const {arr(ks, BOOL)}) false)", arr(ks, BOOL))
